@@ -6,16 +6,23 @@
    Spec: Spec/ExprSyntax.v ([tokens_of e] = the items the printed text of [e] lexes to;
    [wf_expr] excludes only trees without concrete syntax).
 
-   The theorems are at token level: they hold for every well-formed tree (no bound on size or
-   nesting).  That the text printed by the model printer lexes to [tokens_of e] is not proved
-   here (the lexer model belongs to another file); it is checked on every run by the
-   correspondence harness (real scanner on the real String() vs [tokens_of] of the real tree).
+   Token level: the theorems hold for every well-formed tree (no bound on size or nesting).
+   Text level (C17_text_roundtrip, C17_text_injective below): the scanner model of parse/lexer.go
+   (Model/Lexer.v, lexExpr) on the string the printer model writes sends the items of [tokens_of e]
+   (Proofs/LexPrintTop.v), the parser model does not look at item positions (Proofs/ExprParserStrip.v) and its
+   result does not depend on the budget (Proofs/ExprParserFuel.v): string -> items -> the same tree up to
+   node positions, for every tree that is well-formed and lexically well-formed ([lex_ok]: ASCII identifiers
+   that are not keywords, string literals in the printer's own quoted form, float texts of the printed shape).
+   For print COMMANDS the text level is not proved (the scanner's begin-tag state and directive lists are
+   not covered by the string-level lemmas): there the item correspondence is checked on every run by the
+   harness (real scanner on the real String() vs [tokens_of_print] of the real tree).
    Property theorems only. *)
 (* source tie by translation: the lemmas of these files are obligations of this property *)
 From Soy Require Import Proofs.SourceTieExpr Proofs.SourceTieQuote.
 From Soy Require Import Model.Bytes Model.Num Model.Values Model.Ast Model.Token Model.NumLit Model.Quote Model.ExprParser
   Model.AstPrint Generated.Tables Spec.ExprSyntax Proofs.ExprParserRules Proofs.LiteralProofs Proofs.ExprParserProofs Proofs.PlaceholderTextProofs.
 From Soy Require Import Model.Outcome Model.MsgId Proofs.MsgIdProofs.
+From Soy Require Import Model.Lexer Model.Parser Proofs.LexPrintMain Proofs.LexParseText.
 Open Scope N_scope.
 
 (* Parsing the items of the printed expression gives back the expression itself (positions
@@ -35,6 +42,31 @@ Theorem C17_print_injective : forall e1 e2,
   map strip_tok (tokens_of e1) = map strip_tok (tokens_of e2) -> strip_pos e1 = strip_pos e2.
 Proof. exact print_injective. Qed.
 Print Assumptions C17_print_injective.
+
+(* ---- text level ---- *)
+(* parse.Expr(String(e)) = e up to positions: the string the printer model writes for e, scanned by the
+   scanner model in expression mode (lexExpr) and parsed by the parser model under the entry point's
+   own budget ([parse_expr_string]: Model/Lexer.v lex_items, Model/Parser.v soy_expr, the unicode classes
+   being the tables regenerated from the toolchain), returns a tree equal to e up to node positions. *)
+Theorem C17_text_roundtrip : forall e txt,
+  wf_expr e -> lex_ok e -> print_node e = Some txt ->
+  exists e' st', parse_expr_string is_letter_tbl is_digit_tbl txt = Ok (POk e' st') /\ strip_pos e' = strip_pos e.
+Proof. exact text_roundtrip_tbl. Qed.
+Print Assumptions C17_text_roundtrip.
+
+(* two such expressions that print the same STRING are the same expression up to positions *)
+Theorem C17_text_injective : forall e1 e2 txt,
+  wf_expr e1 -> lex_ok e1 -> wf_expr e2 -> lex_ok e2 ->
+  print_node e1 = Some txt -> print_node e2 = Some txt -> strip_pos e1 = strip_pos e2.
+Proof. exact print_string_injective_tbl. Qed.
+Print Assumptions C17_text_injective.
+
+(* the expression parser model does not look at item positions (any item list, any budget): erasing
+   the positions of the items erases the positions of the result and changes nothing else *)
+Theorem C17_parser_ignores_positions : forall f ts,
+  ExprParserStrip.zr strip_pos (parse_expr_top f ts) = parse_expr_top f (map strip_tok ts).
+Proof. exact ExprParserStrip.parse_expr_top_strip. Qed.
+Print Assumptions C17_parser_ignores_positions.
 
 (* The same for print commands: expression, directives with their arguments, closing brace. *)
 Theorem C17_print_command_roundtrip : forall p arg dirs rest,
@@ -157,3 +189,16 @@ Example C17_roundtrip_nonvacuous :
   (exists st, parse_expr_top 40 (tokens_of ex_nested ++ [T_rdelim]) = POk ex_nested st) /\
   (exists st, parse_expr_top 60 (tokens_of ex_tern ++ [T_rdelim]) = POk ex_tern st).
 Proof. split; eexists; vm_compute; reflexivity. Qed.
+
+(* text level, by computation: the printed strings of the two trees above go through scanner and parser
+   models and come back as the trees, positions aside *)
+Definition c17_text_rt (e : node) : Prop :=
+  match print_node e with
+  | Some txt => match parse_expr_string is_letter_tbl is_digit_tbl txt with
+                | Ok (POk e' _) => strip_pos e' = strip_pos e
+                | _ => False
+                end
+  | None => False
+  end.
+Example C17_text_roundtrip_nonvacuous : c17_text_rt ex_nested /\ c17_text_rt ex_tern.
+Proof. split; vm_compute; reflexivity. Qed.
